@@ -52,7 +52,8 @@ impl Distribution for DiscreteUniform {
 
 impl Distribution1D for DiscreteUniform {
     fn update(&mut self, params: &[f64]) {
-        self.set_lower(params[0] as i64).set_upper(params[1] as i64);
+        // validate the new bounds against each other, not against the old ones
+        *self = Self::new(params[0] as i64, params[1] as i64);
     }
 }
 
